@@ -394,10 +394,6 @@ impl Path {
 //|         invariant self.points.len() >= 1, manhattan(self.points@), all_small(self.points@), small(*pt),
 //|             points == &self.points, width == self.width as isize, self.width <= 0x2000_0000_0000_0000,
 //|             !path_flush(self.points@, (self.width / 2) as int, *pt, k as int),
-//@   before /if rect\.contains\(pt\)/
-//|             proof {
-//|                 assert(rect.contains_spec_equiv(self.points@[k as int], self.points@[k + 1], (self.width / 2) as int, *pt));
-//|             }
 //@   loopend 1
 //|             proof {
 //|                 assert forall|j: int| 0 <= j < k + 1 implies !seg_flush(#[trigger] self.points@[j], self.points@[j + 1], (self.width / 2) as int, *pt) by {
